@@ -682,8 +682,17 @@ func lap(name string, t0 *time.Time) {
 	*t0 = now
 }
 
+// scrub removes the scratch location from error texts so that observations are identical across replays.
+func scrub(o *Obs, dir string) {
+	for _, p := range []*string{&o.Panic, &o.OpenErr, &o.ReadErr, &o.WriteErr, &o.Open2Err, &o.Write2Err} {
+		*p = strings.ReplaceAll(*p, dir+string(filepath.Separator), "<image>/")
+		*p = strings.ReplaceAll(*p, dir, "<image>")
+	}
+}
+
 func recoverOne(a *aux, dir string, segSize int, id string) (o Obs) {
 	o.ID = id
+	defer scrub(&o, dir)
 	t0 := time.Now()
 	defer lap("close", &t0)
 	defer func() {
